@@ -77,14 +77,21 @@ def _jc(cs):
     return [list(c) if isinstance(c, tuple) else c for c in cs]
 
 
-def execute(text, spec, inp, mode, values=None):
-    """Execute text for one input set; returns a report dict (JSON-able)."""
+def execute(text, spec, inp, mode, values=None, cf=None):
+    """Execute text for one input set; returns a report dict (JSON-able).
+    cf: list of counterfactual rewrite names applied to the text first."""
     ns, ctx, supplied = make_namespace(spec, inp, mode, values)
     before = {var: rt.tensor_dump(t) for var, t in supplied.items()}
     before_stored = {var: sorted(t.coo(), key=repr) for var, t in supplied.items()}
     rep = {"exec": "ok"}
     try:
-        code = compile(text, "<hifiber>", "exec")
+        if cf:
+            from model import counterfactual
+            code, counts = counterfactual.rewrite(text, cf)
+            rep["cf_sites"] = counts
+            ns.update(counterfactual.extra_globals())
+        else:
+            code = compile(text, "<hifiber>", "exec")
     except SyntaxError as e:
         rep["exec"] = "syntax_error"
         rep["error"] = "%s line %s" % (e.msg, e.lineno)
@@ -99,7 +106,7 @@ def execute(text, spec, inp, mode, values=None):
         tb = traceback.extract_tb(e.__traceback__)
         line = None
         for fr in tb:
-            if fr.filename == "<hifiber>":
+            if fr.filename in ("<hifiber>", "<hifiber-cf>"):
                 line = fr.lineno
         rep["exec"] = "exception"
         rep["error"] = "%s: %s" % (type(e).__name__, str(e)[:300])
@@ -215,9 +222,19 @@ def run_spec(args):
         rep, ns, ctx = execute(text, spec, inp, mode)
         if args.get("canvas"):
             rep["canvas"] = canvas_report(ctx, ns)
+        if args.get("counterfactuals") and not run_ok(rep):
+            rep["cf"] = {}
+            for names in args["counterfactuals"]:
+                r2, _, _ = execute(text, spec, inp, mode, cf=names)
+                rep["cf"]["+".join(names)] = {"ok": run_ok(r2), "sites": r2.get("cf_sites")}
         runs.append(rep)
     out["runs"] = runs
     return out
+
+
+def run_ok(rep):
+    return rep["exec"] == "ok" and all(o["status"] == "ok" and not o["out_of_extent"]
+                                       for o in rep["outputs"].values())
 
 
 def canvas_report(ctx, ns):
